@@ -104,7 +104,7 @@ class Netlist:
 
 def random_netlist(rng, lib, libname, n_inst=6, with_buses=True, with_assigns=True, with_consts=True, with_ff=True, escaped=True):
     N = Netlist(f'top{rng.randrange(1000)}', libname)
-    N.cells = family_cells(lib, libname, rng)
+    N.cells = family_cells(lib, libname, rng, max_inputs=6)
     cellnames = sorted(N.cells)
     dff, dpin, ckpin = DFF_CELLS[libname]
     sources = []
@@ -236,6 +236,8 @@ def render_verilog(N, rng, positional_prob=0.2):
         decl.append(f'{d} {r}{vname(name)};{cmt()}')
         if 0.15 <= w < 0.3:
             decl.append(f'wire {r}{vname(name)};')           # ... or after its direction declaration
+    if rng.random() < 0.5:
+        rng.shuffle(decl)            # the body may declare the ports in any order: port positions follow the header's port list
     # group some scalar wires into one declaration
     ws = list(N.wires)
     rng.shuffle(ws)
